@@ -451,7 +451,7 @@ func (d *dischargeCtx) dischargeIndex(f *ssa.Function, in ssa.Instruction, base,
 
 func checkC01(c *Ctx) {
 	r, t := c.R, c.T
-	r.Explanation = "Decides the absence of *unguarded* panic sites in everything reachable from Script.Run/RefRun and the 23 registered builtins inside the module (explicitly resolved call graph): every single-result type assertion, index/slice expression, integer division, computed make, explicit panic and dereference of a success-nilable AST field is enumerated from go/ssa and must be discharged by one of the rules: comma-ok form; assertion dominated by the matching type tag of the same value / accessor called under the matching NodeType; constant index into a fixed-size array; constant index with len(path) > k proved by a forward length dataflow whose entry state for a builtin is the set of argument counts its checker accepts (CHECKER↔RUNNER); range-loop index; two-sided 0 ≤ i < len(x) guard; bounded struct field proved over all its writers (PlReg.count ≤ 6); non-zero divisor (constant or dominated by a zero test); make size that is a len() or non-negative constant arithmetic; nil test on the same access path. Plus ERR-SHAPE: every non-nil error returned in scope is built by NewRunError/NewErr with the task's name or is a callee's error passed through (C17 decides the position). Not decided: panics inside third-party callees (grok, xmlquery, dateparse, obfuscate, cast — listed as the trusted boundary), stack exhaustion, integer overflow that does not end in a panic."
+	r.Explanation = "Decides the absence of *unguarded* panic sites in everything reachable from Script.Run/RefRun and the 23 registered builtins inside the module (explicitly resolved call graph): every single-result type assertion, index/slice expression, integer division, computed make, explicit panic and dereference of a success-nilable AST field is enumerated from go/ssa and must be discharged by one of the rules: comma-ok form; assertion dominated by the matching type tag of the same value / accessor called under the matching NodeType; constant index into a fixed-size array; constant index with len(path) > k proved by a forward length dataflow whose entry state for a builtin is the set of argument counts its checker accepts (CHECKER↔RUNNER); range-loop index; two-sided 0 ≤ i < len(x) guard; bounded struct field proved over all its writers (PlReg.count ≤ 6); non-zero divisor (constant or dominated by a zero test); make size that is a len() or non-negative constant arithmetic; nil test on the same access path. Plus CHILD-VISIT/DISPATCH (shared with C08): the v1 check pass visits every child position of every node kind, so that every call in an accepted script went through its checker — the premise of CHECKER↔RUNNER. Plus ERR-SHAPE: every non-nil error returned in scope is built by NewRunError/NewErr with the task's name or is a callee's error passed through (C17 decides the position). Not decided: panics inside third-party callees (grok, xmlquery, dateparse, obfuscate, cast — listed as the trusted boundary), stack exhaustion, integer overflow that does not end in a panic."
 	r.Trusted = []string{"github.com/GuanceCloud/grok", "github.com/antchfx/xmlquery", "github.com/araddon/dateparse", "DataDog obfuscate", "github.com/spf13/cast", "encoding/json", "fmt", "strings", "regexp", "net/url", "time"}
 	scope := runScope(t)
 	_, s2k := kindTable(t)
@@ -494,6 +494,11 @@ func checkC01(c *Ctx) {
 	r.Counts["nilable_field_dereferences"] = nNil
 	r.Counts["nil_pointer_arguments"] = nArg
 	errShape(c, scope)
+	// the checkers' arity facts hold only for calls the check pass actually reaches (C08's rule, relied on here)
+	{
+		k2s, s2kk := kindTable(t)
+		c08Pass(c, pRT, k2s, s2kk, parserWrittenFields(t))
+	}
 	r.Floor("PANIC-IDX", 200)
 	r.Floor("PANIC-TA", 40)
 	r.Floor("PANIC-DIV", 4)
